@@ -17,11 +17,11 @@ def flags_cfg(flags, trunc_every=10):
 
 # ---------------------------------------------------------------- generation
 
-def random_menu(rng, n, ids_from=1, arrays=True, nonnumeric=True, ticks=(1, 8)):
+def random_menu(rng, n, ids_from=1, arrays=True, nonnumeric=True, ticks=(1, 8), keys=None, nums=False):
     menu = []
     for i in range(n):
         pid = ids_from + i
-        k = rng.choice(sorted(KEYS))
+        k = rng.choice(keys or BASIC_KEYS)
         r = rng.random()
         if nonnumeric and r < 0.08:
             vs, nn = (), 1
@@ -29,18 +29,27 @@ def random_menu(rng, n, ids_from=1, arrays=True, nonnumeric=True, ticks=(1, 8)):
             vs, nn = rng.choice([("w",), ("w", "x")]), 2
         else:
             vs, nn = rng.choice([("w",), ("w", "x"), ("x",), ("w",)]), 1
-        menu.append(point(pid, rng.randint(*ticks), k, vs=vs, n=nn))
+        num = None
+        if nums and vs:
+            num = {}
+            if rng.random() < 0.85:
+                num["v"] = rng.randint(1, 4)
+            if rng.random() < 0.7:
+                num["u"] = rng.randint(1, 3)
+            if rng.random() < 0.15:
+                vs = ()          # a point carrying only v/u
+        menu.append(point(pid, rng.randint(*ticks), k, vs=vs, n=nn, num=num))
     return menu
 
 
 def sim_scripts(tables, menu, flags, num, depth, seed, workdir, max_flushes=4, max_crashes=2,
-                allow_close=True, trunc_every=10):
+                allow_close=True, trunc_every=10, allow_crash=True):
     """Behaviours of SimStore as lists of action records (TLC -simulate)."""
     mod, cfg = constants_module("SimRun", "SimStore", tables,
                                 {"c_Menu": [tla_point(p) for p in menu], "c_Sorted": {False}})
     cfg = ("SPECIFICATION SimSpec\n" + cfg + flags_cfg(flags, trunc_every) +
-           "  MaxFlushes = %d\n  MaxCrashes = %d\n  Depth = %d\n  AllowClose = %s\n"
-           "INVARIANT Emit\nCHECK_DEADLOCK FALSE\n" % (max_flushes, max_crashes, depth, tla(allow_close)))
+           "  MaxFlushes = %d\n  MaxCrashes = %d\n  Depth = %d\n  AllowClose = %s\n  AllowCrash = %s\n"
+           "INVARIANT Emit\nCHECK_DEADLOCK FALSE\n" % (max_flushes, max_crashes, depth, tla(allow_close), tla(allow_crash)))
     r = run_tlc(mod, "SimRun", cfg, workdir, workers=1, timeout=600,
                 extra=["-simulate", "num=%d" % num, "-depth", str(depth + 1), "-seed", str(seed)])
     hists = []
@@ -51,17 +60,22 @@ def sim_scripts(tables, menu, flags, num, depth, seed, workdir, max_flushes=4, m
     return hists
 
 
-def probes(tables, only=None):
+def probes(tables, only=None, subsets=None):
+    """Probe queries: all fields with and without the memstore; with `subsets'
+    (a random.Random) also a query naming a random subset of the fields."""
     out = []
     for t in tables:
         if only and t.name != only:
             continue
         out.append({"a": "Query", "t": t.name, "mem": True})
         out.append({"a": "Query", "t": t.name, "mem": False})
+        if subsets is not None:
+            fs = [f for f in t.flds() if subsets.random() < 0.5] or [subsets.choice(t.flds())]
+            out.append({"a": "Query", "t": t.name, "mem": subsets.random() < 0.8, "fields": fs})
     return out
 
 
-def scenario_from_hist(scn, tables, menu, hist, opts=None, probe_every=True, int_vals=False):
+def scenario_from_hist(scn, tables, menu, hist, opts=None, probe_every=True, int_vals=False, subsets=None):
     cmds = []
     up = False
     for h in hist:
@@ -69,7 +83,7 @@ def scenario_from_hist(scn, tables, menu, hist, opts=None, probe_every=True, int
         if a == "Insert":
             cmds.append(render_insert(menu[h["i"] - 1], int_vals=int_vals))
         elif a == "Probe":
-            cmds += probes(tables)
+            cmds += probes(tables, subsets=subsets)
         elif a == "Start":
             cmds.append({"a": "Start"})
             up = True
@@ -81,7 +95,7 @@ def scenario_from_hist(scn, tables, menu, hist, opts=None, probe_every=True, int
             c = {"a": a, "t": h["t"]}
             cmds.append(c)
             if probe_every:
-                cmds += probes(tables, only=h["t"])
+                cmds += probes(tables, only=h["t"], subsets=subsets if a == "FlushSwap" else None)
     if not up:
         cmds.append({"a": "Start"})
     cmds.append({"a": "Settle"})
@@ -98,10 +112,37 @@ def scenario_from_hist(scn, tables, menu, hist, opts=None, probe_every=True, int
 ALL_INVS = ["ExactlyOnce", "MemLockStep", "DiskLockStep", "AtMostOnce", "OffsetsOrdered"]
 
 
-def validate(tables, traces, flags, invs, workdir, trunc_every=10, name="TraceRun"):
-    """Validates the traces (dict scn -> lines) against TraceStore. Returns
-    (fails, viols, tlc result): fails = {scn: line record that could not be
-    taken}, viols = list of violation records."""
+def validate(tables, traces, flags, invs, workdir, trunc_every=10, name="TraceRun", chunk_lines=2500):
+    """Validates the traces (dict scn -> lines) against TraceStore, in parallel
+    chunks of whole scenarios.  Returns (fails, viols, wall, lines): fails =
+    {scn: line record that could not be taken}, viols = violation records."""
+    from concurrent.futures import ThreadPoolExecutor
+    os.makedirs(workdir, exist_ok=True)
+    chunks, cur, n = [], {}, 0
+    for scn, lines in traces.items():
+        cur[scn] = lines
+        n += len(lines)
+        if n >= chunk_lines:
+            chunks.append(cur)
+            cur, n = {}, 0
+    if cur:
+        chunks.append(cur)
+    t0 = time.time()
+
+    def one(ci):
+        return validate_chunk(tables, chunks[ci], flags, invs, os.path.join(workdir, "c%d" % ci), trunc_every, name)
+
+    with ThreadPoolExecutor(min(common.NPROC, max(1, len(chunks)))) as ex:
+        res = list(ex.map(one, range(len(chunks))))
+    fails, viols, total = {}, [], 0
+    for f, v, n in res:
+        fails.update(f)
+        viols += v
+        total += n
+    return fails, viols, time.time() - t0, total
+
+
+def validate_chunk(tables, traces, flags, invs, workdir, trunc_every, name):
     os.makedirs(workdir, exist_ok=True)
     path = os.path.join(workdir, name + ".ndjson")
     index = []
@@ -116,7 +157,7 @@ def validate(tables, traces, flags, invs, workdir, trunc_every=10, name="TraceRu
     cfg = ("SPECIFICATION TraceSpec\n" + cfg + flags_cfg(flags, trunc_every) +
            "  CheckInvs = %s\nINVARIANT Done\nCHECK_DEADLOCK FALSE\n" % tla(set(invs)))
     r = run_tlc(mod, name, cfg, workdir, workers=1, timeout=1800, env={"ZV_TRACE": path},
-                java_opts="-Xss64m")
+                java_opts="-Xss64m -Xmx3g")
     m = re.search(r'<<"ZVTRACE", "(.*)">>', r.out)
     if not m:
         open(os.path.join(common.SCRATCH_ROOT, "last_tlc_failure.out"), "w").write(r.out)
@@ -126,7 +167,10 @@ def validate(tables, traces, flags, invs, workdir, trunc_every=10, name="TraceRu
     for fl in rep["fails"]:
         scn, rec = index[fl["at"] - 1]
         fails[fl["scn"]] = {"line": fl["at"], "rec": rec}
-    return fails, rep["viol"], r, len(index)
+    first = {}
+    for v in sorted(rep["viol"], key=lambda v: v["at"]):
+        first.setdefault((v["scn"], v["inv"]), v)
+    return fails, list(first.values()), len(index)
 
 
 # ---------------------------------------------------------------- oracle
@@ -138,7 +182,7 @@ def expected_cells(table, menu, n_entries, array_dup):
     out = {}
     pred = WHERES[table.where][1]
     for p in menu[:n_entries]:
-        d = KEYS[p["k"]]
+        d = plain_dims(KEYS[p["k"]])
         if not pred(d) or not p["vs"]:
             continue
         key = table.proj(p["k"])
@@ -199,7 +243,7 @@ def model_check(module, tables, menu, flags, invs, props, workdir, max_flushes=3
 
 def counterexample_script(tables, menu, flags, inv, workdir, **kw):
     """Shortest behaviour of SimStore violating inv, as an action list."""
-    extra_cfg = "  Depth = 1000\n  AllowClose = FALSE\nVIEW SimView\n"
+    extra_cfg = "  Depth = 1000\n  AllowClose = FALSE\n  AllowCrash = TRUE\nVIEW SimView\n"
     r = model_check("SimStoreCex", tables, menu, flags, ["Cex_" + inv], [], workdir,
                     name="CexRun", extra_cfg=extra_cfg, **kw)
     m = re.search(r'<<"ZVCEX", "(.*)">>', r.out)
@@ -211,7 +255,7 @@ def counterexample_script(tables, menu, flags, inv, workdir, **kw):
 # ---------------------------------------------------------------- replay + judge
 
 def run_and_judge(pid, V, bins, scenarios, tables_of, flags, invs, work, array_dup_oracle,
-                  classify=None, label="replay"):
+                  classify=None, label="replay", value_oracle=None):
     """Runs scenarios on the real code, validates the traces with TLC and
     applies the end-state oracle.  tables_of(scn) -> list of Table.
     Returns statistics."""
@@ -230,8 +274,8 @@ def run_and_judge(pid, V, bins, scenarios, tables_of, flags, invs, work, array_d
     fails, viols = {}, []
     for gi, (key, tr) in enumerate(groups.items()):
         any_scn = next(iter(tr))
-        f, v, r, n = validate(tables_of(by_id[any_scn]), tr, flags, invs, os.path.join(work, "%s-tlc%d" % (label, gi)))
-        print("[%s] TLC validated %d lines in %.1fs" % (pid, n, r.wall), flush=True)
+        f, v, wall, n = validate(tables_of(by_id[any_scn]), tr, flags, invs, os.path.join(work, "%s-tlc%d" % (label, gi)))
+        print("[%s] TLC validated %d lines in %.1fs" % (pid, n, wall), flush=True)
         fails.update(f)
         viols += v
         stats["lines"] += n
@@ -263,7 +307,8 @@ def run_and_judge(pid, V, bins, scenarios, tables_of, flags, invs, work, array_d
             stats["accepted"] += 1
         # end-state oracle, independent of trace acceptance
         if herr:
-            V.notes.append("%s: harness error %s" % (scn, json.dumps(herr[0])[:300]))
+            rp = common.save_replay(pid, scn + "-harness", {"scenario": sc, "kind": "harness-error", "error": herr[0]})
+            V.notes.append("%s: harness error %s (scenario saved as %s)" % (scn, json.dumps(herr[0])[:300], rp))
             continue
         mem, disk = final_views(lines)
         n_entries = sum(1 for c in sc["cmds"] if c["a"] == "Insert")
@@ -273,10 +318,16 @@ def run_and_judge(pid, V, bins, scenarios, tables_of, flags, invs, work, array_d
             obs = rows_to_cells(mem[t.name]["rows"])
             exp = expected_cells(t, sc["menu"], n_entries, array_dup_oracle)
             d = diff_cells(obs, exp)
+            if value_oracle and not d:
+                bad = value_oracle(sc, t, mem[t.name], n_entries)
+                if bad:
+                    rp = common.save_replay(pid, scn, {"scenario": sc, "table": t.name, "kind": "values", "bad": bad[:10]})
+                    V.violation(rp, "%s: table %s: field values differ from the declared aggregates over the cell's points, e.g. %s"
+                                % (scn, t.name, bad[0]))
             if d:
                 verdict = classify(sc, t, d) if classify else None
-                if verdict:
-                    V.known_finding(verdict)
+                if verdict and V.listed(verdict):
+                    V.known_finding(V.listed(verdict))
                 else:
                     rp = common.save_replay(pid, scn, {"scenario": sc, "table": t.name, "kind": "end-state",
                                                        "diff": [[list(k), v] for k, v in sorted(d.items(), key=repr)]})
@@ -293,14 +344,18 @@ def sample_of(sc, n=14):
                                            if c["a"] != "Query"][:n * 3]}
 
 
-# ---------------------------------------------------------------- C02
+# ---------------------------------------------------------------- family driver
 
-def check_C02(args):
+def store_check(args, pid, mc_jobs, gen, invs, array_dup_oracle, assumptions, classify=None,
+                mc_props=("FlushInvisible", "DiskEqualsViewAfterSwap"), nontrivial_rule=None, value_oracle=None,
+                extra_cov=None):
+    """Common driver: (M) exhaustive TLC jobs, counterexamples replayed as
+    hypotheses; (R) simulated behaviours replayed on the real code, traces
+    validated by TLC, end-state oracle."""
     t0 = time.time()
-    pid = "C02"
     V = Verdict(pid)
     quick = common.tier() == "quick"
-    rng = random.Random(common.seed() * 7919 + 2)
+    rng = random.Random(common.seed() * 7919 + int(pid[1:]))
     bins = common.build()
     work = common.scratch(pid)
     flags = dict(CODE_FLAGS)
@@ -310,80 +365,255 @@ def check_C02(args):
             rp = json.load(open(args.replay))
             sc = rp["scenario"]
             tabs = tables_from_defs(sc)
-            stats, *_ = run_and_judge(pid, V, bins, [sc], lambda s: tabs, flags, ALL_INVS, work, flags["ArrayDup"])
+            stats, *_ = run_and_judge(pid, V, bins, [sc], lambda s: tabs, flags, invs, work, array_dup_oracle, classify,
+                                      value_oracle=value_oracle)
             print(json.dumps(stats))
             return V.finish()
-        # (M) exhaustive exploration of the protocol
-        menus = [MC_MENU] if quick else [MC_MENU,
-                 [point(1, 1, 1, n=2), point(2, 2, 3, vs=("x",)), point(3, 3, 4, n=1), point(4, 2, 2, vs=())]]
         states = trans = 0
         hyps = []
-        for mi, menu in enumerate(menus):
-            r = model_check("MCStore", MC_TABLES, menu, flags, ALL_INVS, ["FlushInvisible", "DiskEqualsViewAfterSwap"],
-                            os.path.join(work, "mc%d" % mi), max_flushes=3 if quick else 4, max_crashes=2,
+        for mi, job in enumerate(mc_jobs(quick)):
+            r = model_check("MCStore", job["tables"], job["menu"], job.get("flags", flags), job.get("invs", ALL_INVS),
+                            job.get("props", mc_props), os.path.join(work, "mc%d" % mi),
+                            max_flushes=job.get("max_flushes", 3), max_crashes=job.get("max_crashes", 2),
+                            trunc_every=job.get("trunc_every", 2), sorted_set=job.get("sorted", (False,)),
                             timeout=600 if quick else 3000)
             states += r.distinct
             trans += r.generated
             if r.violated:
-                hyps.append((menu, r.violated))
+                hyps.append((job, r.violated))
             elif not r.ok:
+                open(os.path.join(common.SCRATCH_ROOT, "last_tlc_failure.out"), "w").write(r.out)
                 raise InfraError("model checking did not finish:\n" + r.out[-3000:])
         cov["states"], cov["transitions"] = states, trans
-        print("[%s] model checking done at %.1fs: %d states" % (pid, time.time() - t0, states), flush=True)
+        print("[%s] model checking done at %.1fs: %d distinct states" % (pid, time.time() - t0, states), flush=True)
         scenarios = []
+        tabs_of = {}
         cex_ids = set()
-        # a counterexample of the model is a hypothesis: replay it on the real code
-        for hi, (menu, violated) in enumerate(hyps):
-            for inv in violated[:1]:
-                for probe_inv in ("ExactlyOnce",):
-                    h = counterexample_script(MC_TABLES, menu, flags, probe_inv, os.path.join(work, "cex%d" % hi),
-                                              max_flushes=3, max_crashes=2)
-                    if h:
-                        sc = scenario_from_hist("%s-cex%d" % (pid, hi), MC_TABLES, menu, h)
-                        scenarios.append(sc)
-                        cex_ids.add(sc["scn"])
-                        V.notes.append("model: %s violated for the code-faithful constants; counterexample %s replayed as %s"
-                                       % (inv, [x["a"] for x in h], sc["scn"]))
-        # (R) simulated behaviours replayed on the real code
-        n_menus = 6 if quick else 60
-        per = 25 if quick else 120
-        for mi in range(n_menus):
-            menu = random_menu(rng, rng.randint(3, 6))
-            tabs = MC_TABLES
-            hs = sim_scripts(tabs, menu, flags, per, rng.choice([24, 32, 40]), rng.randint(1, 10 ** 6),
-                             os.path.join(work, "sim%d" % mi), max_flushes=5, max_crashes=3)
-            for j, h in enumerate(hs):
-                scenarios.append(scenario_from_hist("%s-%d-%d" % (pid, mi, j), tabs, menu, h,
-                                                    int_vals=rng.random() < 0.3))
+        for hi, (job, violated) in enumerate(hyps):
+            known = job.get("expect_violation")
+            if known and set(violated) <= set(known["invs"]) and V.listed(known["why"]):
+                V.known_finding(V.listed(known["why"]))
+                continue
+            h = counterexample_script(job["tables"], job["menu"], job.get("flags", flags), "ExactlyOnce",
+                                      os.path.join(work, "cex%d" % hi), max_flushes=job.get("max_flushes", 3),
+                                      max_crashes=job.get("max_crashes", 2))
+            if h:
+                sc = scenario_from_hist("%s-cex%d" % (pid, hi), job["tables"], job["menu"], h)
+                scenarios.append(sc)
+                tabs_of[sc["scn"]] = job["tables"]
+                cex_ids.add(sc["scn"])
+            V.notes.append("model: %s violated for the code-faithful constants; counterexample %s"
+                           % (violated, "replayed as %s-cex%d" % (pid, hi) if h else "not reproducible as a script"))
+        for sc, tabs in gen(rng, quick, work, flags):
+            scenarios.append(sc)
+            tabs_of[sc["scn"]] = tabs
         print("[%s] %d scenarios generated at %.1fs" % (pid, len(scenarios), time.time() - t0), flush=True)
-        stats, traces, fails, viols = run_and_judge(pid, V, bins, scenarios, lambda s: MC_TABLES, flags, ALL_INVS,
-                                                   work, flags["ArrayDup"])
+        stats, traces, fails, viols = run_and_judge(pid, V, bins, scenarios, lambda s: tabs_of[s["scn"]], flags, invs,
+                                                   work, array_dup_oracle, classify, value_oracle=value_oracle)
+        if extra_cov:
+            cov.update(extra_cov(scenarios, traces))
         cov.update({"traces_validated_against_impl": stats["accepted"],
                     "samples": [sample_of(s) for s in scenarios[:3]],
                     "replayed_behaviours": stats["scenarios"], "trace_lines": stats["lines"],
                     "crash_or_close_steps": stats["crashes"], "completed_flushes": stats["flushes"],
                     "behaviours_with_flush_and_crash": stats["nontrivial"],
                     "unexplained_traces": stats["diverged"], "harness_errors": stats["harness_errors"],
-                    "model_counterexamples_replayed": len(cex_ids)})
+                    "model_counterexamples_replayed": len(cex_ids), "exhaustive": False})
         rc = V.finish()
-        common.write_evidence(pid, "model_checking", cov,
-                              ["crash = loss of volatile state at a hook point (process-kill model; page cache survives)",
-                               "the harness maps WAL offsets to entries by entry content",
-                               "schema static, all points inside the retention window"],
-                              time.time() - t0, len(V.violations))
-        if stats["harness_errors"] > len(scenarios) // 2:
+        common.write_evidence(pid, "model_checking", cov, assumptions, time.time() - t0, len(V.violations))
+        if stats["harness_errors"] > max(2, len(scenarios) // 10):
             print("harness errors in %d of %d scenarios" % (stats["harness_errors"], len(scenarios)))
-            return 2
+            return rc or 2
         return rc
     finally:
         shutil.rmtree(work, ignore_errors=True)
+
+
+BASE_ASSUMPTIONS = ["the harness maps WAL offsets to entries by entry content",
+                    "schema static, all points inside the retention window",
+                    "bag-of-ids observable: point i carries 4^i in every decodable SUM field (<= 24 points)"]
+
+MENU2 = [point(1, 1, 1, n=2), point(2, 2, 3, vs=("x",)), point(3, 3, 4, n=1), point(4, 2, 2, vs=())]
+
+
+# ---------------------------------------------------------------- C02
+
+def check_C02(args):
+    def mc_jobs(quick):
+        jobs = [dict(tables=MC_TABLES, menu=MC_MENU, max_flushes=3, max_crashes=2)]
+        if not quick:
+            jobs.append(dict(tables=MC_TABLES, menu=MENU2, max_flushes=4, max_crashes=2))
+        return jobs
+
+    def gen(rng, quick, work, flags):
+        n_menus, per = (6, 25) if quick else (60, 120)
+        for mi in range(n_menus):
+            menu = random_menu(rng, rng.randint(3, 6))
+            hs = sim_scripts(MC_TABLES, menu, flags, per, rng.choice([24, 32, 40]), rng.randint(1, 10 ** 6),
+                             os.path.join(work, "sim%d" % mi), max_flushes=5, max_crashes=3)
+            for j, h in enumerate(hs):
+                yield scenario_from_hist("C02-%d-%d" % (mi, j), MC_TABLES, menu, h, int_vals=rng.random() < 0.3), MC_TABLES
+
+    return store_check(args, "C02", mc_jobs, gen, ALL_INVS, CODE_FLAGS["ArrayDup"],
+                       ["crash = loss of volatile state at a hook point (process-kill model; page cache survives)"]
+                       + BASE_ASSUMPTIONS)
+
+
+# ---------------------------------------------------------------- C03
+
+C03_TABLES = [Table("a", fields=("f", "g"), where="all", group=("a", "b"), res=2),
+              Table("b", fields=("f",), where="by", group=("a",), res=1)]
+
+
+def check_C03(args):
+    def mc_jobs(quick):
+        jobs = [dict(tables=MC_TABLES, menu=MC_MENU, max_flushes=4, max_crashes=1, sorted=(False, True))]
+        if not quick:
+            jobs.append(dict(tables=C03_TABLES, menu=MENU2, max_flushes=5, max_crashes=1, sorted=(False, True), trunc_every=3))
+        return jobs
+
+    def gen(rng, quick, work, flags):
+        n_menus, per = (6, 20) if quick else (50, 100)
+        for mi in range(n_menus):
+            tabs = rng.choice([C03_TABLES, MC_TABLES])
+            menu = random_menu(rng, rng.randint(4, 8))
+            # flush-heavy behaviours, clean restarts, no crashes; every third menu
+            # runs long enough for the 10th (truncating, non-raw) flush
+            long = mi % 3 == 0
+            hs = sim_scripts(tabs, menu, flags, per, 90 if long else rng.choice([30, 45]), rng.randint(1, 10 ** 6),
+                             os.path.join(work, "sim%d" % mi), max_flushes=24 if long else 8, max_crashes=2,
+                             allow_crash=False, allow_close=True)
+            for j, h in enumerate(hs):
+                opts = {"maxMemoryRatio": 0.9} if rng.random() < 0.5 else {}
+                yield scenario_from_hist("C03-%d-%d" % (mi, j), tabs, menu, h, opts=opts, subsets=rng), tabs
+
+    return store_check(args, "C03", mc_jobs, gen, ["ExactlyOnce", "MemLockStep", "DiskLockStep"],
+                       CODE_FLAGS["ArrayDup"],
+                       ["flush schedules are forced flushes placed by TLC-simulated behaviours (timer-driven flushes are covered by the free-running tier)",
+                        "sorted flushes occur when MaxMemoryRatio > 0 and it is the table's turn (observed, not forced)"]
+                       + BASE_ASSUMPTIONS)
+
+
+# ---------------------------------------------------------------- C01
+
+RAW = {"sv": "SUM(v)", "cv": "COUNT(v)", "mn": "MIN(v)", "mx": "MAX(v)", "av": "AVG(v)", "wv": "WAVG(v, u)",
+       "ar": "SUM(v) + SUM(u)", "dv": "SUM(v) / COUNT(u)", "ifs": "IF(b = 'y', SUM(v))",
+       "bv": "AVG(BOUNDED(v, 2, 3))", "ml": "SUM(v) * MAX(u)"}
+C01_TABLES = [Table("a", fields=("f", "g"), where="all", group=("a",), res=2),
+              Table("b", fields=("f",), where="by", group=(), res=1),
+              Table("c", fields=("h", "i"), where="a1", group=("b", "c"), res=3),
+              Table("v", fields=("f",), where="bx", view_where="bx", group=("a",), res=2, view_of="a"),
+              Table("agg", fields=("f",), where="all", group=("a",), res=2, raw=RAW),
+              Table("d", fields=("g", "f"), where="all", group=(), res=2)]
+D8_KEY = "array-values-inserted-twice"
+D8_TEXT = ("array-valued field: every additional array element is inserted twice (insert.go:216-252 runs twice "
+           "inside bytemap.Build), so an n-element array counts 2n-1 times instead of n; pinned by TestSingleDB (_points 202)")
+
+
+def agg_expected(points):
+    """Declared aggregates of table agg over the accepted points of one cell,
+    from the definitions of the aggregates (not from the code)."""
+    from fractions import Fraction as F
+    vs = [p["num"]["v"] for p in points if "v" in p.get("num", {})]
+    us = [p["num"]["u"] for p in points if "u" in p.get("num", {})]
+    vu = [(p["num"]["v"], p["num"].get("u", 0)) for p in points if "v" in p.get("num", {})]
+    by = [p["num"]["v"] for p in points if "v" in p.get("num", {}) and plain_dims(KEYS[p["k"]]).get("b") == "y"]
+    bd = [v for v in vs if 2 <= v <= 3]
+    sumu = sum(u for _, u in vu)
+    out = {"sv": F(sum(vs)), "cv": F(len(vs)), "mn": F(min(vs)) if vs else F(0), "mx": F(max(vs)) if vs else F(0),
+           "av": F(sum(vs), len(vs)) if vs else F(0),
+           "wv": F(sum(v * u for v, u in vu), sumu) if sumu else F(0),
+           "ar": F(sum(vs) + sum(us)),
+           "dv": (F(sum(vs), len(us)) if us else (F(0) if not vs else None)),
+           "ifs": F(sum(by)), "bv": F(sum(bd), len(bd)) if bd else F(0),
+           "ml": F(sum(vs) * (max(us) if us else 0))}
+    return out
+
+
+def c01_value_oracle(sc, t, result, n_entries):
+    if not t.raw:
+        return []
+    pred = WHERES[t.where][1]
+    cells = {}
+    for p in sc["menu"][:n_entries]:
+        if not pred(plain_dims(KEYS[p["k"]])) or not p["vs"]:
+            continue
+        cells.setdefault((t.proj(p["k"]), -(-p["ts"] // t.res) * t.res), []).append(p)
+    obs = {}
+    for key, per, f, val in result.get("vals", []):
+        obs[(key, per, f)] = val
+    bad = []
+    for (key, per), pts in cells.items():
+        exp = agg_expected(pts)
+        for f, e in exp.items():
+            o = obs.get((key, per, f), 0.0)
+            if e is None:          # x / 0 with x # 0: defined as "very large"
+                if o < 1e300:
+                    bad.append([key, per, f, o, "max float"])
+                continue
+            if abs(o - float(e)) > 1e-9 * max(1.0, abs(float(e))):
+                bad.append([key, per, f, o, str(e)])
+    for (key, per, f), o in obs.items():
+        if (key, per) not in cells and o != 0:
+            bad.append([key, per, f, o, "no such cell"])
+    return bad
+
+
+def check_C01(args):
+    def classify(sc, t, d):
+        n_entries = sum(1 for c in sc["cmds"] if c["a"] == "Insert")
+        dup = expected_cells(t, sc["menu"], n_entries, True)
+        prop = expected_cells(t, sc["menu"], n_entries, False)
+        arr = {p["id"] for p in sc["menu"] if p["n"] > 1 and "w" in p["vs"]}
+        for k, (o, e) in d.items():
+            if dup.get(k, 0) != o:
+                return None          # not what D8 predicts
+            if k[3] != 0 and k[3] not in arr:
+                return None
+        return D8_KEY
+
+    def mc_jobs(quick):
+        design = dict(CODE_FLAGS, ArrayDup=False)
+        jobs = [dict(tables=MC_TABLES, menu=MC_MENU, max_flushes=3, max_crashes=0, flags=design,
+                     invs=ALL_INVS + ["ViewCorrect"]),
+                dict(tables=MC_TABLES, menu=MC_MENU, max_flushes=2, max_crashes=0, invs=["ViewCorrect"], props=(),
+                     expect_violation={"invs": ["ViewCorrect"], "why": D8_KEY})]
+        if not quick:
+            jobs.append(dict(tables=C01_TABLES[:4], menu=MENU2, max_flushes=3, max_crashes=0, flags=design,
+                             invs=ALL_INVS + ["ViewCorrect"]))
+        return jobs
+
+    def gen(rng, quick, work, flags):
+        n_menus, per = (6, 12) if quick else (60, 60)
+        for mi in range(n_menus):
+            tabs = C01_TABLES
+            menu = random_menu(rng, rng.randint(5, 10), ticks=(0, 9), keys=sorted(KEYS), nums=True,
+                               arrays=mi % 2 == 0)
+            # a key whose encoding is a byte-prefix of an earlier key's (radix tree split)
+            if mi % 2 == 1 and len(menu) > 4:
+                i1, i2 = sorted(rng.sample(range(len(menu)), 2))
+                for idx, k in ((i1, 8), (i2, 10)):
+                    menu[idx]["k"], menu[idx]["sat"] = k, sat_of(k)
+            # duplicates: same timestamp and dimensions as an earlier point
+            elif len(menu) > 3:
+                src, dst = rng.sample(range(len(menu)), 2)
+                menu[dst]["ts"], menu[dst]["k"], menu[dst]["sat"] = menu[src]["ts"], menu[src]["k"], menu[src]["sat"]
+            hs = sim_scripts(tabs, menu, flags, per, rng.choice([50, 70]), rng.randint(1, 10 ** 6),
+                             os.path.join(work, "sim%d" % mi), max_flushes=8, max_crashes=1, allow_close=True)
+            for j, h in enumerate(hs):
+                yield scenario_from_hist("C01-%d-%d" % (mi, j), tabs, menu, h, int_vals=rng.random() < 0.4), tabs
+
+    return store_check(args, "C01", mc_jobs, gen, ALL_INVS, False,
+                       ["values of the aggregate catalogue are small integers, so float results are exact",
+                        "a value is numeric iff it is an int, a float64 or an array of those (insert.go:221-249)"]
+                       + BASE_ASSUMPTIONS, classify=classify, value_oracle=c01_value_oracle)
 
 
 def tables_from_defs(sc):
     """Rebuild Table objects of a stored scenario (replay)."""
     out = []
     for d in sc["tables"]:
-        cand = [t for t in MC_TABLES if t.define() == d]
+        cand = [t for t in MC_TABLES + C03_TABLES + C01_TABLES if t.define() == d]
         if cand:
             out.append(cand[0])
         else:
@@ -391,4 +621,4 @@ def tables_from_defs(sc):
     return out
 
 
-CHECKS = {"C02": check_C02}
+CHECKS = {"C01": check_C01, "C02": check_C02, "C03": check_C03}
